@@ -1205,7 +1205,9 @@ func (w *verifC17World) newTask(rt *rapid.T, st verifC17State, ch, id string) me
 		} else {
 			t.TargetNode = t.SourceNode%6 + 1 // every node already participates: roles are invalid, the SM must cope
 		}
-		if verifC17Pct(rt, "oddRoles", 8) {
+		if verifC17Pct(rt, "rrSourceIsLeader", 35) {
+			// replacing the replica that currently leads the channel: the
+			// executor has to move leadership away first (embedded transfer)
 			t.SourceNode = m.Leader
 		}
 	}
@@ -1248,7 +1250,8 @@ func (w *verifC17World) forward(rt *rapid.T, st verifC17State, ch string) *verif
 		}
 		return w.bClaim(t, owner)
 	}
-	lt := verifC17IsLT(t.Kind)
+	lt := verifC17LTMode(t)
+	embedded := lt && !verifC17IsLT(t.Kind)
 	cutPhase := metadb.ChannelMigrationPhasePromoteAndRemove
 	if lt {
 		cutPhase = metadb.ChannelMigrationPhaseCommitLeaderMeta
@@ -1327,9 +1330,24 @@ func (w *verifC17World) forward(rt *rapid.T, st verifC17State, ch string) *verif
 		return build(w.now)
 	}
 
+	// sourceIsLeader: a replica replacement whose source currently leads the
+	// channel moves leadership to another ISR member first, inside the same
+	// task (FLOW.md "Replica replace 嵌入式 leader transfer"); without a
+	// candidate, or sometimes anyway, the operator gives up.
+	sourceIsLeader := func() *verifC17Req {
+		cands := verifC17Without(verifC17Without(m.ISR, m.Leader), t.TargetNode)
+		if len(cands) == 0 || verifC17Pct(rt, "giveUpSourceLeader", 20) {
+			return w.bAbort(t, m)
+		}
+		return w.bAdvanceEmbedded(t, rapid.SampledFrom(cands).Draw(rt, "embeddedDesired"))
+	}
+
 	if lt {
 		switch t.Phase {
 		case metadb.ChannelMigrationPhaseValidate:
+			if embedded {
+				return advance(metadb.ChannelMigrationPhaseProbeTarget)
+			}
 			if m.Leader != t.SourceNode || !verifC17Has(m.ISR, t.TargetNode) {
 				return w.bAbort(t, m)
 			}
@@ -1345,7 +1363,7 @@ func (w *verifC17World) forward(rt *rapid.T, st verifC17State, ch string) *verif
 			if m.Leader != t.SourceNode {
 				return w.bAbort(t, m)
 			}
-			if t.Kind == metadb.ChannelMigrationKindLeaderFailover {
+			if t.Kind == metadb.ChannelMigrationKindLeaderFailover || (embedded && verifC17Pct(rt, "embeddedDirectCommit", 50)) {
 				return drain(metadb.ChannelMigrationPhaseCommitLeaderMeta)
 			}
 			return drain(metadb.ChannelMigrationPhaseFinalTargetCatchUp)
@@ -1357,7 +1375,13 @@ func (w *verifC17World) forward(rt *rapid.T, st verifC17State, ch string) *verif
 			}
 			return cutover(func(now int64) *verifC17Req { return w.bCommit(t, m, now) })
 		case metadb.ChannelMigrationPhaseVerifyNewLeader:
-			if verifC17Pct(rt, "abortAfterCommit", 20) {
+			// an operator abort may arrive after the leader commit, before the
+			// executor has cleared the fence
+			pct := 20
+			if embedded {
+				pct = 30
+			}
+			if verifC17Pct(rt, "abortAfterCommit", pct) {
 				return w.bAbort(t, m)
 			}
 			return w.bClear(t, m)
@@ -1366,14 +1390,22 @@ func (w *verifC17World) forward(rt *rapid.T, st verifC17State, ch string) *verif
 	}
 	switch t.Phase {
 	case metadb.ChannelMigrationPhaseValidate:
-		if m.Leader == t.SourceNode || !verifC17Has(m.Replicas, t.SourceNode) || verifC17Has(m.Replicas, t.TargetNode) {
+		if !verifC17Has(m.Replicas, t.SourceNode) || verifC17Has(m.Replicas, t.TargetNode) {
 			return w.bAbort(t, m)
+		}
+		if m.Leader == t.SourceNode {
+			return sourceIsLeader()
 		}
 		return advance(metadb.ChannelMigrationPhaseAddLearner)
 	case metadb.ChannelMigrationPhaseAddLearner:
-		if m.Leader == t.SourceNode || !verifC17Has(m.Replicas, t.SourceNode) || verifC17Has(m.Replicas, t.TargetNode) ||
+		if !verifC17Has(m.Replicas, t.SourceNode) || verifC17Has(m.Replicas, t.TargetNode) ||
 			(!verifC17Has(m.ISR, t.SourceNode) && int64(len(m.ISR)) < m.MinISR) {
 			return w.bAbort(t, m)
+		}
+		if m.Leader == t.SourceNode {
+			// FLOW.md: AddLearner re-reads the authoritative meta; if the source
+			// became the leader (again) the task goes back to an embedded transfer
+			return sourceIsLeader()
 		}
 		return w.bAddLearner(t, m)
 	case metadb.ChannelMigrationPhaseBootstrapTarget:
@@ -1458,7 +1490,7 @@ func verifC17AdvanceTargets(t metadb.ChannelMigrationTask) [][2]int {
 	P := func(p metadb.ChannelMigrationPhase) int { return int(p) }
 	run, blocked := int(metadb.ChannelMigrationStatusRunning), int(metadb.ChannelMigrationStatusBlocked)
 	out := [][2]int{{P(t.Phase), blocked}}
-	if verifC17IsLT(t.Kind) {
+	if verifC17LTMode(t) {
 		switch t.Phase {
 		case metadb.ChannelMigrationPhaseValidate:
 			out = append(out, [2]int{P(metadb.ChannelMigrationPhaseProbeTarget), run})
@@ -1466,6 +1498,9 @@ func verifC17AdvanceTargets(t metadb.ChannelMigrationTask) [][2]int {
 			out = append(out, [2]int{P(metadb.ChannelMigrationPhaseWriteFence), run})
 		case metadb.ChannelMigrationPhaseDrainLeader:
 			out = append(out, [2]int{P(metadb.ChannelMigrationPhaseFinalTargetCatchUp), run})
+			if t.Kind != metadb.ChannelMigrationKindLeaderTransfer {
+				out = append(out, [2]int{P(metadb.ChannelMigrationPhaseCommitLeaderMeta), run})
+			}
 		case metadb.ChannelMigrationPhaseFinalTargetCatchUp:
 			out = append(out, [2]int{P(metadb.ChannelMigrationPhaseFinalTargetCatchUp), run}, [2]int{P(metadb.ChannelMigrationPhaseCommitLeaderMeta), run})
 		case metadb.ChannelMigrationPhaseCommitLeaderMeta:
@@ -1495,6 +1530,12 @@ func (w *verifC17World) buildFor(rt *rapid.T, kind string, t metadb.ChannelMigra
 	case "claim":
 		return w.bClaim(t, uint64(rapid.IntRange(1, 3).Draw(rt, "owner")))
 	case "advance":
+		if t.Kind == metadb.ChannelMigrationKindReplicaReplace && !t.EmbeddedLeaderTransfer && m.Leader == t.SourceNode &&
+			(t.Phase == metadb.ChannelMigrationPhaseValidate || t.Phase == metadb.ChannelMigrationPhaseAddLearner) {
+			if cands := verifC17Without(verifC17Without(m.ISR, m.Leader), t.TargetNode); len(cands) > 0 && verifC17Pct(rt, "advEmbedded", 50) {
+				return w.bAdvanceEmbedded(t, rapid.SampledFrom(cands).Draw(rt, "embeddedDesired"))
+			}
+		}
 		tg := verifC17AdvanceTargets(t)
 		c := tg[rapid.IntRange(0, len(tg)-1).Draw(rt, "advTarget")]
 		status := metadb.ChannelMigrationStatus(c[1])
@@ -1502,7 +1543,11 @@ func (w *verifC17World) buildFor(rt *rapid.T, kind string, t metadb.ChannelMigra
 			status = metadb.ChannelMigrationStatusFailed
 		}
 		proof := metadb.ChannelMigrationCutoverProof{}
-		if status == metadb.ChannelMigrationStatusRunning && (metadb.ChannelMigrationPhase(c[0]) == metadb.ChannelMigrationPhaseFinalTargetCatchUp && t.Phase != metadb.ChannelMigrationPhaseCommitLeaderMeta && t.Phase != metadb.ChannelMigrationPhasePromoteAndRemove) {
+		drainStep := metadb.ChannelMigrationPhase(c[0]) == metadb.ChannelMigrationPhaseFinalTargetCatchUp && t.Phase != metadb.ChannelMigrationPhaseCommitLeaderMeta && t.Phase != metadb.ChannelMigrationPhasePromoteAndRemove
+		if t.Phase == metadb.ChannelMigrationPhaseDrainLeader && metadb.ChannelMigrationPhase(c[0]) == metadb.ChannelMigrationPhaseCommitLeaderMeta {
+			drainStep = true
+		}
+		if status == metadb.ChannelMigrationStatusRunning && drainStep {
 			proof = w.bProof(rt, t, m)
 			if proof.DrainedFenceVersion == 0 {
 				proof = metadb.ChannelMigrationCutoverProof{}
